@@ -22,7 +22,8 @@ CFG = dict(
                  "level changes happen at quiescent points; under concurrency 'later calls' is only defined there",
                  "a line buffer of 1 byte cannot hold newline + terminator and is not exercised"],
     min_counts={"any": {"clean_up_with_lines_still_queued": 20, "noalloc_line_truncated": 100, "direct_line_truncated": 100,
-                        "level_changed_at_barrier": 50, "foreground_channel": 30, "clean_up_with_more_than_64_lines_queued": 20, "writer_reported_errors": 50}},
+                        "level_changed_at_barrier": 50, "foreground_channel": 30, "clean_up_with_more_than_64_lines_queued": 20, "writer_reported_errors": 50,
+                        "subject_name_of_79_to_300_characters": 100}},
 )
 
 META = dict(
